@@ -691,3 +691,19 @@ Definition run_content (c : tr) : tr :=
       end
   | _ => ebad
   end.
+
+(* ---------------------------------------------------------------------------------------------- *)
+(* texts as a parser sees them: in a tree where no two text nodes are adjacent, the parsed document has exactly the
+   non-empty text nodes of the tree *)
+Definition is_text (t : hnode) : bool := match t with Txt _ | Raw _ => true | _ => false end.
+Fixpoint no_adjacent_texts (l : list hnode) : bool :=
+  match l with
+  | a :: ((b :: _) as r) => negb (is_text a && is_text b) && no_adjacent_texts r
+  | _ => true
+  end.
+Fixpoint sepb (t : hnode) : bool :=
+  match t with
+  | El _ _ _ kids => no_adjacent_texts kids && forallb sepb kids
+  | _ => true
+  end.
+Definition nonempty (s : str) : bool := match s with [] => false | _ => true end.
